@@ -18,15 +18,15 @@ RULE = ("programs = loss kind (ODE / stationary 2-D with border / non-stationary
 ASSUMPTIONS = [
     "the number p of batches solve() consumes before iteration 0 is not fixed by the statement: inferred in {0,1} from the "
     "first program of a worker and required to be the same for every later program and for resumed runs",
-    "float64; histories / parameters / optimizer state compared at rtol 1e-6, atol 1e-9 (optax schedules evaluate the "
+    "float64 (and a sixth of the programs in JAX's default 32-bit mode at rtol 5e-3 / atol 5e-5); histories / parameters / optimizer state compared at rtol 1e-6, atol 1e-9 (optax schedules evaluate the "
     "learning rate in float32, which differs by an ulp between compiled and step-by-step execution); generator state exact",
     "the non-compiled branch of solve is exercised with a SingleDeviceSharding of the only (CPU) device",
 ]
 TIMEOUT = {"quick": 1800, "thorough": 7200}
 MIN_COUNTERS = {"quick": {"programs_compared": 24, "iterations_compared": 200, "programs_with_reshuffle": 15,
-                          "programs_with_tracked_gradient": 6, "resumed_programs": 4, "programs_with_default_verbosity": 6},
+                          "programs_with_tracked_gradient": 6, "resumed_programs": 4, "programs_with_default_verbosity": 6, "programs_in_32bit_mode": 3},
                 "thorough": {"programs_compared": 200, "iterations_compared": 1500, "programs_with_reshuffle": 120,
-                             "programs_with_tracked_gradient": 50, "resumed_programs": 40, "programs_with_default_verbosity": 50}}
+                             "programs_with_tracked_gradient": 50, "resumed_programs": 40, "programs_with_default_verbosity": 50, "programs_in_32bit_mode": 25}}
 
 
 def gen_cases(tier, seed):
@@ -64,7 +64,7 @@ def gen_cases(tier, seed):
         prog["inf_placeholder"] = bool(kind in ("ode", "statio2", "nonstatio1") and k % 5 == 2)
         # solve's default is verbose=True (loss printed every print_loss_every iterations from inside the loop)
         prog["verbose"] = bool(k % 3 == 1)
-        cases.append(dict(prog=prog, cost=2.0 + (1.0 if prog["resumed"] else 0.0)))
+        cases.append(dict(prog=prog, cost=2.0 + (1.0 if prog["resumed"] else 0.0), x64=bool(k % 6 != 5)))
     return cases
 
 
@@ -72,6 +72,11 @@ _PRIME = {}
 # optax schedules compute the learning rate in float32 (count -> float32 power): compiled and op-by-op
 # execution differ there by ~1e-7 relative, i.e. ~1e-9 on the parameters; orchestration errors are >= 1e-4
 RT, AT = 1e-6, 1e-9
+if __import__("os").environ.get("JV_X64", "1") == "0":
+    # JAX's default 32-bit mode (what users run): compiled and step-by-step execution differ by float32 rounding
+    # that accumulates over the iterations; these cases are there for what only breaks in 32-bit mode (integer
+    # cursors, dtype of loop carries), the fine orchestration comparisons are made by the 64-bit cases
+    RT, AT = 5e-3, 5e-5
 
 
 def compare(rec, out, ref, n, sig, label):
@@ -141,6 +146,8 @@ def run_case(case, rec):
     label = "%s opt=%s aux=%s n=%d b=%d iters=%d tracked=%s" % (prog["kind"], prog["opt"], prog["aux"], prog["n"],
                                                                  prog["b"], n, prog["tracked"])
 
+    if not case.get("x64", True):
+        rec.count("programs_in_32bit_mode")
     shard = jax.sharding.SingleDeviceSharding(jax.devices()[0]) if prog.get("sharding") else None
     if shard is not None:
         rec.count("programs_non_compiled_branch")
